@@ -67,6 +67,7 @@ fn run_op(op: &J) -> J {
         "pcmp" => raw(h::parse_cmp_dump(gs(op, "text"))),
         "pclause" => raw(h::parse_clause_dump(gs(op, "text"))),
         "pconds" => raw(h::parse_conditions_dump(gs(op, "text"))),
+        "plet" => raw(h::parse_let_dump(gs(op, "text"))),
         "cmp" => raw(h::compare(gs(op, "cmp"), gs(op, "lhs"), gs(op, "rhs"))),
         "and" => raw(h::status_and(gs(op, "a"), gs(op, "b"))),
         "merge" => raw(h::merge(gs(op, "a"), gs(op, "b"), gs(op, "loader"))),
